@@ -134,6 +134,9 @@ func main() {
 			if err := enc.Encode(c); err != nil {
 				panic(err)
 			}
+			if timedOut {
+				break // a hung Extract keeps running in its goroutine: stop here, write what we have, exit 3
+			}
 		}
 		sf.Close()
 		var sb strings.Builder
@@ -142,7 +145,11 @@ func main() {
 		if err := os.WriteFile(filepath.Join(*outdir, "C03_"+f.Name+".v"), []byte(sb.String()), 0o644); err != nil {
 			panic(err)
 		}
-		fmt.Printf("format=%s cases=%d\n", f.Name, len(cases))
+		fmt.Printf("format=%s cases=%d\n", f.Name, len(items))
+		if timedOut {
+			fmt.Printf("timeout format=%s case=%d\n", f.Name, len(items)-1)
+			os.Exit(3)
+		}
 	}
 }
 
@@ -221,4 +228,7 @@ func doReplay(path string) {
 	fmt.Printf("implementation: %s\n", ob)
 	fmt.Printf("coq-module: %s\n", f.CoqModule)
 	fmt.Printf("coq-case: %s\n", f.CoqCase(c))
+	if timedOut {
+		os.Exit(0) // do not wait for the hung goroutine
+	}
 }
